@@ -10,9 +10,9 @@ import sctrace as sc
 MUT_C08 = ['init-scrypt', 'init-argon', 'add-user-scrypt', 'add-user-argon', 'add-admin', 'add-user-notmp',
            'update-noaux-scrypt', 'update-noaux-argon', 'update-aux100', 'update-aux5k', 'update-aux70k-oneline',
            'update-aux1m', 'update-aux-crlf-nonl', 'update-admin', 'update-notmp']
-QUICK_C08 = ['init-argon', 'add-user-scrypt', 'add-user-notmp', 'update-noaux-argon', 'update-aux5k', 'update-aux70k-oneline', 'update-admin']
+QUICK_C08 = ['init-argon', 'add-user-scrypt', 'add-user-notmp', 'update-noaux-argon', 'update-aux5k', 'update-aux70k-oneline', 'update-aux-crlf-nonl', 'update-admin']
 MUT_C09 = MUT_C08 + ['setadmin-up', 'setadmin-down', 'setadmin-same', 'remove-user', 'remove-admin', 'remove-nonexistent']
-QUICK_C09 = ['init-scrypt', 'add-user-argon', 'add-admin', 'update-aux100', 'update-aux5k', 'setadmin-up', 'setadmin-down', 'remove-user', 'remove-admin', 'remove-nonexistent']
+QUICK_C09 = ['init-scrypt', 'add-user-argon', 'add-admin', 'update-aux100', 'update-aux5k', 'update-aux-crlf-nonl', 'setadmin-up', 'setadmin-down', 'remove-user', 'remove-admin', 'remove-nonexistent']
 FAIL_SEM = ['add-existing', 'update-nonexistent', 'setadmin-nonexistent', 'init-nonempty']
 RO = ['ro-auth-ok', 'ro-auth-wrong', 'ro-auth-upgradeable', 'ro-auth-nonexistent', 'ro-exists', 'ro-list', 'ro-listfull', 'ro-check']
 
@@ -311,13 +311,31 @@ def c09_stage(ctx):
     return st.done()
 
 
-def durability_scenario(st, scen):
-    tdir, rdir, t = reference(st, scen)
+def durability_scenario(st, scen, inject=None, tag=''):
+    if inject is None:
+        tdir, rdir, t = reference(st, scen)
+    else:
+        tdir = os.path.join(st.work, scen, 'template' + tag)
+        rdir = os.path.join(st.work, scen, 'run' + tag)
+        st.prep(scen, tdir)
+        st.prep(scen, rdir)
+        t = st.traced(scen, rdir, 'f', inject=inject, strsize=2200000)
     if t['bi'] is None or t['ei'] is None:
         raise RuntimeError('markers not found in reference trace of ' + scen)
-    if t['status'] != 'ok':
+    if inject is not None:
+        st.count('fsync_fault_runs')
+        st.count('fsync_fault_result:' + str(t['status']))
+        if t['status'] != 'ok':
+            shutil.rmtree(tdir, ignore_errors=True)
+            shutil.rmtree(rdir, ignore_errors=True)
+            return   # a reported failure is C15's business
+    elif t['status'] != 'ok':
         raise RuntimeError('reference operation of %s failed: %s' % (scen, t['result']))
     win = window(t)
+    if inject is None and not scen.startswith('remove'):
+        # every fsync of the operation is made to fail once: success may then only be reported if the change is durable anyway
+        for fs in [x for x in win if x.name in ('fsync', 'fdatasync') and x.err is None]:
+            durability_scenario(st, scen, inject='%s:error=EIO:when=%d' % (fs.name, fs.occ), tag='-fsyncfail%d' % fs.occ)
     m = new_model(tdir, rdir)
     st.count('scenarios')
     # ordering monitor
@@ -383,13 +401,14 @@ def durability_scenario(st, scen):
         st.count('post_ack_state:' + v.get('state', '?'))
         if v.get('problems'):
             bad_seen = True
-            st.violate('c09:acknowledged-change-not-durable:%s' % (scen if scen.startswith(('setadmin', 'remove')) else scenario_class(scen)),
+            st.violate('c09:acknowledged-change-not-durable:%s%s' % (scen if scen.startswith(('setadmin', 'remove')) else scenario_class(scen), ':after-failed-fsync' if inject else ''),
                        'after the operation reported success, a power loss can leave: %s' % ('; '.join(v['problems'])[:400]),
                        scen + '/postack', {'scenario': scen, 'lost_and_kept': desc, 'state': v.get('state'), 'tree': sc.describe_tree(tree), 'problems': v['problems'],
                                            'entry_operations': [e[2] for e in entry_ops], 'directory_fsyncs': [d for _, d in dir_syncs]})
     st.sample({'scenario': scen, 'entry_operations': [e[2].replace(m.base, '<base>') for e in entry_ops], 'directory_fsyncs': len(dir_syncs),
                'pending_entry_ops_at_ack': npend, 'post_ack_states': len(states), 'any_state_missing_the_change': bad_seen})
-    shutil.rmtree(os.path.join(st.work, scen), ignore_errors=True)
+    if inject is None:
+        shutil.rmtree(os.path.join(st.work, scen), ignore_errors=True)
 
 
 # ==============================================================================================
@@ -434,7 +453,7 @@ def c15_stage(ctx):
                'change must be complete; (c) semantically failing operations change nothing; (d) read-only calls issue no mutating syscall on the sandbox and '
                'leave it byte- and inode-identical. Non-trivial: every injected fault and every read-only/failed call; distinct by (scenario, syscall occurrence, errno)', ctx)
     quick = ctx.tier == 'quick'
-    mut = ['add-user-scrypt', 'add-admin', 'add-user-notmp', 'init-argon', 'update-aux100', 'update-aux5k', 'setadmin-up', 'remove-user'] if quick else MUT_C09
+    mut = ['add-user-scrypt', 'add-admin', 'add-user-notmp', 'init-argon', 'update-aux100', 'update-aux5k', 'update-aux-crlf-nonl', 'update-aux70k-oneline', 'setadmin-up', 'remove-user'] if quick else MUT_C09
     for scen in mut:
         if getattr(ctx, 'only_case', None) and not ctx.only_case.startswith(scen):
             continue
